@@ -22,15 +22,23 @@ class Gen:
         # unquoted `#`, `a#b` and `\\#` are cut by the line-level comment rule when the head is run, which is not this property's matter)
         self.hashy = r.chance(1, 3)
         self.deco = {}
+        self.compound = {}
 
-    def newcond(self):
+    def newcond(self, part=False):
         self.cond += 1
+        c = self.cond
         if self.hashy and self.r.chance(1, 2):
-            self.deco[self.cond] = self.r.choice([" '#'", ' "#"', " '#x y'", " '# fi'", " '#'"])
-        return self.cond
+            self.deco[c] = self.r.choice([" '#'", ' "#"', " '#x y'", " '# fi'", " '#'"])
+        if not part and self.r.chance(1, 4):
+            # a head that is a list: the block is entered on the status of the LAST command the list ran
+            self.compound[c] = [(self.r.choice(["||", "&&"]), self.newcond(True)) for _ in range(1 + self.r.below(2))]
+        return c
+
+    def base(self, c):
+        return "cond %d%s" % (c, self.deco.get(c, ""))
 
     def ctext(self, c):
-        return "cond %d%s" % (c, self.deco.get(c, ""))
+        return self.base(c) + "".join(" %s %s" % (op, self.base(c2)) for op, c2 in self.compound.get(c, []))
 
     def block(self, depth, in_loop, budget):
         k = 1 + self.r.below(3)
@@ -68,6 +76,8 @@ class Gen:
             return ("if", arms, els)
         if k == "for":
             words = ["w%d" % i for i in range(r.below(5))]
+            if getattr(self, "globs", False) and r.chance(1, 5):
+                words = ["*.txt"]            # a word list produced by filename expansion (one of the names holds a blank)
             return ("for", "v%d" % r.below(3), words, self.block(depth - 1, True, budget))
         return ("while", self.newcond(), self.block(depth - 1, True, budget))
 
@@ -138,7 +148,7 @@ def generate(tier, rng):
         seq = {}
         for c in range(1, g.cond + 1):
             k = r.below(4)
-            seq[g.ctext(c)] = [0] * k + [r.choice([1, 1, 2, 127])]
+            seq[g.base(c)] = [0] * k + [r.choice([1, 1, 2, 127])]
         for n_ in range(1, g.n + 1):
             if r.chance(1, 4):
                 seq["stage %d 0" % n_] = [r.choice([0, 1, 3])]
@@ -193,8 +203,9 @@ def process(tier, rng, cicada):
     for i in range(n):
         g = Gen(r)
         g.hashy = False     # the condition helper takes exactly one argument
+        g.globs = True
         b = g.block(1 + r.below(4), False, [25])
-        text = "\n".join(render(b, r.choice(["nl", "semi"]), r)) + "\n"
+        text = "\n".join(render(b, r.choice(["nl", "semi"]), r, 0, g.ctext)) + "\n"
         seq = {}
         for c_ in range(1, g.cond + 1):
             seq["cond %d" % c_] = [0] * r.below(4) + [r.choice([1, 2, 127])]
@@ -204,10 +215,13 @@ def process(tier, rng, cicada):
             text = text.replace("stage %d 0\n" % n_, "stage %d %d\n" % (n_, stat[n_]))
             seq["stage %d %d" % (n_, stat[n_])] = [stat[n_]]
         seqf = ",".join(hx(k) + ":" + ".".join(str(x) for x in v) for k, v in seq.items()) or "[]"
-        w = " ".join(wire(b))
+        w = " ".join(wire(b, g.ctext))
         for n_ in range(1, g.n + 1):
             w = w.replace(hx("stage %d 0" % n_), hx("stage %d %d" % (n_, stat[n_])))
-        c = Case("srun", [gens.env_field(exported={"HOME": "/h"}), hx(text), ",".join(hx(x) for x in ["cicada", "s.sh"]), seqf, "[]", w],
+        envf = gens.env_field(exported={"HOME": "/h"})
+        if "*.txt" in text:
+            envf += ";g=" + hx("*.txt") + ":" + hx("a.txt") + "/" + hx("b c.txt")      # what the glob crate answers in the session directory
+        c = Case("srun", [envf, hx(text), ",".join(hx(x) for x in ["cicada", "s.sh"]), seqf, "[]", w],
                  {"gen": "p", "t": text, "seq": seq})
         c.id = "p%d" % i
         cases.append(c)
@@ -220,6 +234,9 @@ def process(tier, rng, cicada):
             if k.startswith("cond "):
                 open(os.path.join(d, k.split()[1] + ".seq"), "w").write(" ".join(str(x) for x in v))
         open(os.path.join(d, "s.sh"), "w").write(c.meta["t"])
+        if "*.txt" in c.meta["t"]:
+            for fn in ("a.txt", "b c.txt"):
+                open(os.path.join(d, fn), "w").close()
         log = os.path.join(d, "trace.log")
         try:
             p = subprocess.run([cicada, os.path.join(d, "s.sh")], cwd=d, env=sb.env({"STAGE_LOG": log, "COND_DIR": d}), stdin=subprocess.DEVNULL,
